@@ -412,6 +412,8 @@ func typeOf(v *V) reflect.Type {
 			return reflect.MapOf(tInt, typeOf(v.Vals[0]))
 		}
 		return reflect.MapOf(tInt, tString)
+	case "nilif": // an untyped nil held by an interface (an element of a []interface{}, a value of a map[string]interface{})
+		return tIface
 	case "nilmap":
 		return reflect.MapOf(tString, tIface)
 	case "nilstrs":
@@ -534,7 +536,7 @@ func valueOf(v *V) reflect.Value {
 			r.SetMapIndex(reflect.ValueOf(i+1), valueOf(e))
 		}
 		return r
-	case "nilmap", "nilstrs":
+	case "nilmap", "nilstrs", "nilif":
 		return reflect.Zero(t)
 	case "tmap":
 		m := TMap{"__id": regTags(v.Tags)}
